@@ -109,6 +109,27 @@ Section AL.
       + apply lookup_in. rewrite <- E. apply in_lookup; assumption.
       + apply lookup_in. rewrite E. apply in_lookup; assumption.
   Qed.
+
+  (** Filtering on a predicate of the key. *)
+  Lemma lookup_filter_key (p : K -> bool) k m :
+    lookup k (filter (fun e => p (fst e)) m) = if p k then lookup k m else None.
+  Proof.
+    induction m as [|[k0 v0] r IH]; cbn [filter lookup fst].
+    - destruct (p k); reflexivity.
+    - destruct (p k0) eqn:P0; cbn [lookup].
+      + destruct (eqb_spec k k0) as [->|Hne]; [rewrite P0; reflexivity|exact IH].
+      + rewrite IH. destruct (eqb_spec k k0) as [->|Hne]; [rewrite P0; reflexivity|reflexivity].
+  Qed.
+
+  Lemma wf_filter (f : K * V -> bool) m : wf m -> wf (filter f m).
+  Proof.
+    unfold wf. induction m as [|[k0 v0] r IH]; cbn [filter map fst]; intros H; [constructor|].
+    inversion H as [|? ? Hn Hr]; subst.
+    destruct (f (k0, v0)); cbn [map fst]; [|apply IH; exact Hr].
+    constructor; [|apply IH; exact Hr].
+    intros Hin. apply Hn. apply in_map_iff in Hin. destruct Hin as [[k1 v1] [E Hin]].
+    apply filter_In in Hin. destruct Hin as [Hin _]. apply in_map_iff. exists (k1, v1). split; assumption.
+  Qed.
 End AL.
 
 Arguments lookup {K V} eqb k m.
